@@ -16,6 +16,7 @@ mod shape;
 mod singular;
 mod solver;
 mod stack;
+mod urdfx;
 mod util;
 mod yaml;
 
@@ -44,6 +45,7 @@ fn main() {
         ("record", "offsets") => collide::record_offsets(&args[3]),
         ("record", "shape") => shape::record(&args[3]),
         ("replay", "yaml") => yaml::replay(&args[3], &args[4]),
+        ("replay", "urdf") => urdfx::replay(&args[3], &args[4]),
         ("record", "ik") => solver::record(&args[3], &args[4]),
         ("record", "follow") => solver::record_follow(&args[3]),
         _ => {
